@@ -80,7 +80,7 @@ std::string observe(const Linear_Expression& e, const ME& m, std::string& detail
     size_t n = m.c.size();
     size_t s = rnd(0, (int) n), t = rnd(0, (int) n); if (s > t) std::swap(s, t);
     // [0,0) makes DENSE all_zeroes_except answer false (defect, reported once in a while so the rest stays visible)
-    if (s == 0 && t == 0 && !coin((int) hx::opt().geti("aze00", 2))) t = 1;
+    if (s == 0 && t == 0 && !risky("aze00", 2)) t = 1;
     bool az = true; size_t nz = 0, fnz = t, lnz = t; bool seen = false;
     for (size_t i = s; i < t; ++i) { if (m.c[i] != 0) { az = false; if (!seen) { fnz = i; seen = true; } lnz = i; } else ++nz; }
     if (a.all_zeroes(s, t) != az) { d << "all_zeroes(" << s << "," << t << ")"; detail = d.str(); return "all_zeroes_range"; }
@@ -208,10 +208,10 @@ void rd::case_expr() {
         // Documented as `*this = *this * c1 + y * c2`.  With an argument of lower dimension PPL leaves the receiver's
         // trailing coefficients unscaled (defect, both representations alike): visited rarely so the rest stays visible.
         bool lower = MB.dim() < M.dim();
-        if (lower && k != 1 && !coin((int) hx::opt().geti("lcdim", 5))) { hx::count("expr.skip.linear_combine_lowerdim"); op.clear(); break; }
+        if (lower && k != 1 && !risky("lcdim", 5)) { hx::count("expr.skip.linear_combine_lowerdim"); op.clear(); break; }
         // c1 == 0 with a SPARSE receiver and a DENSE argument stores zeroes in the sparse row (defect): visited, but not every time
         bool sz = lax && k == 0 && k2 != 0 && ((A.X.representation() == SPARSE && argX.representation() == DENSE) || (A.Y.representation() == SPARSE && argY.representation() == DENSE));
-        if (sz && !coin((int) hx::opt().geti("laxsz", 30))) { hx::count("expr.skip.lax_stored_zero"); op.clear(); break; }
+        if (sz && !risky("laxsz", 30)) { hx::count("expr.skip.lax_stored_zero"); op.clear(); break; }
         args << "#" << b << ":" << rs(argX.representation()) << rs(argY.representation()) << "," << k << "," << k2; tr(pre.str() + op + "(" + args.str() + ")");
         if (lax) { A.X.linear_combine_lax(argX, k, k2); A.Y.linear_combine_lax(argY, k, k2); } else { A.X.linear_combine(argX, k, k2); A.Y.linear_combine(argY, k, k2); }
         M.grow(MB.dim()); for (size_t i = 0; i < M.c.size(); ++i) M.c[i] = M.c[i] * k + (i < MB.c.size() ? MB.c[i] * k2 : Z(0));
@@ -238,7 +238,7 @@ void rd::case_expr() {
         if (how == 0) { op = "assign"; args << "#" << b; tr(pre.str() + op + "(" + args.str() + ")"); A.X = argX; A.Y = argY; M = MB; }
         else if (how == 1) { op = "copy_repr"; args << "#" << b << "," << rs(rx) << rs(ry); tr(pre.str() + op + "(" + args.str() + ")"); A.X = Linear_Expression(argX, rx); A.Y = Linear_Expression(argY, ry); M = MB; }
         else if (how == 2) { op = n < MB.dim() ? "copy_dim_truncate" : "copy_dim"; args << "#" << b << ":" << rs(argX.representation()) << rs(argY.representation()) << "," << n; tr(pre.str() + op + "(" + args.str() + ")"); A.X = Linear_Expression(argX, n); A.Y = Linear_Expression(argY, n); M = MB; M.c.resize(n + 1); }
-        else { if (n < MB.dim() && !coin((int) hx::opt().geti("truncds", 8))) { if (argX.representation() == DENSE) rx = DENSE; if (argY.representation() == DENSE) ry = DENSE; }
+        else { if (n < MB.dim() && !risky("truncds", 8)) { if (argX.representation() == DENSE) rx = DENSE; if (argY.representation() == DENSE) ry = DENSE; }
           op = n < MB.dim() ? "copy_dim_repr_truncate" : "copy_dim_repr"; args << "#" << b << ":" << rs(argX.representation()) << rs(argY.representation()) << "," << n << "," << rs(rx) << rs(ry); tr(pre.str() + op + "(" + args.str() + ")");
           A.X = Linear_Expression(argX, n, rx); A.Y = Linear_Expression(argY, n, ry); M = MB; M.c.resize(n + 1);
           if (n < MB.dim() && ((argX.representation() == DENSE && rx == SPARSE) || (argY.representation() == DENSE && ry == SPARSE))) poison() = "truncating-dense-to-sparse"; }
@@ -390,7 +390,7 @@ static void run_case(uint64_t) {
     switch (c % 10) {
     case 0: case 1: case_expr(); break;
     case 2: case 3: case_obj(); break;
-    case 4: case_sys(); break;
+    case 4: if (assert_safe()) case_obj(); else case_sys(); break;   // Polyhedron / Grid clients trip representation-independent debug assertions
     case 5: case 6: case 7: case_row(); break;
     case 8: case_tree(); break;
     default: if (p == "default") case_expr(); else case_alias(); break;
